@@ -13,6 +13,7 @@
     * `keccak_binding`        the same instantiated with the executable Lean Keccak-256 (its 32-byte output length is proved);
     * `map_order_irrelevant`  the per-proposal hash does not depend on the iteration order of the Go map;
     * `negative_chain_err`, `missing_version_err`, `bad_address_err`, `evm_chain_wrap_point`   excluded points: what happens there;
+    * `watch_submits_hashed`  the watch loop submits the batch that was hashed, whatever the polls before the signature say;
     * `sig_layout`, `sig_ok`  the submitted signature is LeftPad32(r) ‖ LeftPad32(s) ‖ (v+27), 65 bytes, for every r, s of at most
                               32 bytes (short ones included) and every recovery byte; v+27 ∈ {27,28} iff v ∈ {0,1}.
   ASSUMED / NOT PROVED: collision resistance of Keccak-256 (the reduction ends in `Collision H`); that the Lean Keccak-256
@@ -366,6 +367,22 @@ theorem sig_ok_nat (r s : Nat) (v : UInt8) (hr : r < 2 ^ 256) (hs : s < 2 ^ 256)
   have h256 : (256 : Nat) ^ 32 = 2 ^ 256 := by decide
   have := sig_ok (natToBE r) (natToBE s) v (natToBE_length_le r 32 (by omega)) (natToBE_length_le s 32 (by omega))
   simpa [beToNat_natToBE] using this
+
+/-! ### between hashing and submission -/
+
+/-- **C02-e.** Whatever the destination answers to the polls that precede the signature, the batch submitted with the
+    signature is the batch that was hashed (the loop neither reorders, drops nor duplicates members) — or nothing is
+    submitted at all. Tied to the real `watchExecution` of both executors by op `watchsig`, to the real `Execute` (every
+    hashed batch is watched as itself) by op `execwatch`. -/
+theorem watch_submits_hashed (batch : List Nat) (sweeps : List (List Bool)) (b : List Nat)
+    (h : watch batch sweeps = .submitted b) : b = batch := by
+  unfold watch at h
+  split at h
+  · cases h
+  · injection h with h; exact h.symm
+
+/-- non-vacuity: polls that see the first member executed do not change what is submitted -/
+example : watch [0, 1, 2] [[true, false, false], [true, true, false]] = .submitted [0, 1, 2] := by decide
 
 /-! ### non-vacuity -/
 
